@@ -1,6 +1,15 @@
 #!/usr/bin/env python3
 # Regenerates MANIFEST.json from manifest_src.json (claimed checks) and validates it.
 import json, sys, subprocess
+
+def hook_commits():
+    """commits of /repo that touch only the guarded hook files (zz_verif_*.go, //go:build verif)"""
+    import subprocess
+    try:
+        out = subprocess.run(["git", "-C", "/repo", "log", "--format=%h", "--", "*zz_verif_*"], capture_output=True, text=True).stdout.split()
+        return list(reversed(out))
+    except Exception:
+        return []
 src = json.load(open('/verif/manifest_src.json'))
 props = [json.loads(l) for l in open('/verif/properties.jsonl')]
 ids = [p['id'] for p in props]
@@ -23,7 +32,7 @@ na = [{"property_id": pid, "reason": src['not_applicable'][pid]} for pid in ids 
 for x in na:
     assert x['reason']
 m = {"version": 1, "setup_cmd": "./setup.sh",
-     "hooks": src['hooks'],
+     "hooks": dict(src['hooks'], source_commits=hook_commits()),
      "engines": [{"name": "gvc", "path": "/verif/engine", "serves_properties": [c['property_id'] for c in checks],
                   "kind_free_text": "verification-condition generator for Go (go/ssa + contracts in //@ comment files) with an SMT portfolio (z3 5.1.0, cvc5 1.0, z3 4.8.12)"}],
      "checks": checks, "notes": src['notes'], "not_applicable": na}
